@@ -423,6 +423,28 @@ fn check_const<T: Boundary + Clone>(rt: &Runtime<NoCtx>, idx: usize, expected: &
             return Err((format!("constant:{ty}"), format!("registered constant K_{idx} = {} read as {}\n{src}", expected.show(), got.show())));
         }
     }
+    // a variable initialised from the constant is a copy: assigning to the variable (and, for lists,
+    // nothing else) leaves the constant what it was, for this package and for the next one
+    if !ty.starts_with("List") && !ty.contains("List[") && ty != "()" {
+        let src2 = format!("fn kcopy(o: {ty}, b: bool) -> {ty} {{\n    let x = K_{idx};\n    if b {{\n        x = o;\n    }}\n    x\n}}\nfn konst() -> {ty} {{\n    K_{idx}\n}}\n");
+        let mut pkg2 = host::compile(rt, &src2).map_err(|e| (format!("rejected-constant:{ty}"), e))?;
+        let g = pkg2.get_function::<fn(T, bool) -> T>("kcopy").map_err(|e| (format!("get_function:{ty}"), format!("{e}")))?;
+        let k2 = pkg2.get_function::<fn() -> T>("konst").map_err(|e| (format!("get_function:{ty}"), format!("{e}")))?;
+        let seed: Vec<u8> = (0..64u8).map(|i| i.wrapping_mul(91).wrapping_add(idx as u8).wrapping_add(5)).collect();
+        for round in 0..3 {
+            let mut c = Choices::new(&seed[round * 9..]);
+            let other = T::make(&mut c);
+            let back = g.call(other.dup(), true);
+            if !back.same(&other) {
+                return Err((format!("constant-copy:{ty}"), format!("kcopy({}, true) returned {}\n{src2}", other.show(), back.show())));
+            }
+            let kept = g.call(other.dup(), false);
+            let (now, now2) = (k2.call(), f.call());
+            if !kept.same(expected) || !now.same(expected) || !now2.same(expected) {
+                return Err((format!("constant-overwritten:{ty}"), format!("after `let x = K_{idx}; x = {};` the constant K_{idx} = {} reads as {} (same package) / {} (package compiled earlier); a fresh copy reads {}\n{src2}", other.show(), expected.show(), now.show(), now2.show(), kept.show())));
+            }
+        }
+    }
     Ok(())
 }
 
